@@ -528,7 +528,11 @@ func (s *scope) Close() error {
 	close(s.done)
 
 	if s.root {
+		// n.b. Wait for the report loop to exit, so that no periodic report
+		//      overlaps with or outlives the final report below.
+		s.wg.Wait()
 		s.reportRegistry()
+		s.registry.purgeIfRootClosed()
 		if closer, ok := s.baseReporter.(io.Closer); ok {
 			return closer.Close()
 		}
